@@ -40,7 +40,7 @@ CFG = {
         "from_lsb0 empty slice at the top": r"^from_lsb0 b4 42949672\d\d hex: => ok",
     },
     "gaps": [
-        "C16_safe_* (DESIGN §8, lean/RoaringModel/Safe.lean + Lemmas/SafeLemmas.lean): for every `-`, `+=`, `<<`/`>>`, slice index / slice range and narrowing `as` cast of bitmap_store.rs (insert, remove, contains, insert_range, remove_range, contains_range, min, max, to_array_store, rank, select + the select() helper, remove_smallest, remove_biggest, op_bitmaps, |= / -= / ^= with an array incl. the i64 counter, intersection_len_*, BitmapIter next/next_back/advance_*), array_store/mod.rs (insert, remove, insert_range, remove_range, contains_range, to_bitmap_store incl. the debug unwrap, rank, select), container.rs (insert_range, remove_smallest, remove_biggest, ensure_correct_store), inherent.rs (binary_search indices, find_container_by_key, insert_range as a whole incl. the chunk loop, contains_range, range_cardinality, len, rank, select, remove_smallest, remove_biggest, the insert_range/remove_range counters), util.rs split/join, serialization.rs serialize_into/serialized_size, statistics.rs, and the treemap's split/join/len/rank/select/insert_range-over-an-existing-partition, the side condition is a decidable predicate Safe_* over the model state (file:line next to every conjunct) and is PROVED from BStore.Inv / Arr.Inv / Store.Inv / Bitmap.WF plus the integer type of the arguments (46 theorems C16_safe_*, each with a concrete example; several with a counterexample on an ill-formed value showing the predicate is not vacuous)",
+        "C16_safe_* (DESIGN §8, lean/RoaringModel/Safe.lean + Lemmas/SafeLemmas.lean): for every `-`, `+=`, `<<`/`>>`, slice index / slice range and narrowing `as` cast of bitmap_store.rs (insert, remove, contains, insert_range, remove_range, contains_range, min, max, to_array_store, rank, select + the select() helper, remove_smallest, remove_biggest, op_bitmaps, |= / -= / ^= with an array incl. the i64 counter, intersection_len_*, BitmapIter next/next_back/advance_*), array_store/mod.rs (insert, remove, insert_range, remove_range, contains_range, to_bitmap_store incl. the debug unwrap, rank, select), container.rs (insert_range, remove_smallest, remove_biggest, ensure_correct_store), inherent.rs (binary_search indices, find_container_by_key, insert_range as a whole incl. the chunk loop, contains_range, range_cardinality, len, rank, select, remove_smallest, remove_biggest, the insert_range/remove_range counters), util.rs split/join, serialization.rs serialize_into/serialized_size, statistics.rs, and the treemap's split/join/len/rank/select/insert_range-over-an-existing-partition, the side condition is a decidable predicate Safe_* over the model state (file:line next to every conjunct) and is PROVED from BStore.Inv / Arr.Inv / Store.Inv / Bitmap.WF plus the integer type of the arguments (45 theorems C16_safe_*, each with a concrete example; several with a counterexample on an ill-formed value showing the predicate is not vacuous)",
         "caller obligations that are not consequences of the receiver's invariant: ArrayStore::remove_smallest/remove_biggest need n <= len (rotate_left, len - n) and Container::remove_smallest/remove_biggest need n <= len (bits.len() - n); they are crate-private and C16_safe_removeSmallest / C16_safe_removeBiggest prove that the only callers (RoaringBitmap::remove_smallest/biggest) pass 0 < n < container.len() for every u64 argument",
         "observation (not a reachable defect): the u64 sums of RoaringTreemap::len, ::rank(u64::MAX) and the counter of ::insert_range(..) reach exactly 2^64 for the one treemap holding all 2^64 values and overflow there (C16_safe_treemap_len_iff, C16_treemap_len_2p64_observation); that value needs 2^32 full partitions = 2^61 bytes, so it is excluded by the property's fits-in-memory clause; len/rank are proved safe for fewer than 2^32 partitions (C16_safe_treemap_len, C16_safe_treemap_rank), select and the 32-bit type unconditionally",
         "not stated as Safe_* theorems: (1) the composition over the `while index < len` loop of RoaringBitmap::remove_range as ONE predicate (the pieces are there: the index is below len by the loop test, every container call gets a <= b <= u16::MAX so C16_safe_store applies, intermediate values are well-formed by C01, the counter by C16_safe_range_counters), likewise insert/remove/contains/push as compositions of C16_safe_search + C16_safe_store; (2) the binary operators' array-array merges (scalar.rs has no arithmetic besides slice iteration), MultiOps, from_lsb0_bytes (its panic is C16_lsb0_panics), the decoders (covered as err-never-panic by C13/C14) and the treemap iterators; (3) allocation sizes (Vec::with_capacity, n_bytes_* of statistics) — capacity dependent, not modelled. For these, absence of arithmetic panics rests on the differential runs with overflow checks enabled",
